@@ -175,12 +175,17 @@ func urlUnescape(s string) (string, error) {
 // whatever a killed build left behind loads: through the index, as `dawn list`, `dawn gc` and the REPL load (a kill inside
 // the index write leaves a truncated index, which must be ignored), and in full
 func (r *engRun) loadAfterCrash(point string) {
+	r.loadAfter("a build killed at " + point)
+}
+
+// loadAfter: "the persisted build state stays loadable" -- an index-preferring load and a full load, in fresh processes
+func (r *engRun) loadAfter(what string) {
 	for _, mode := range []string{"loadindex", "load"} {
 		rep, _, hung := r.child(mode, "", nil, "")
 		if hung || rep == nil {
-			r.oracle("C03 the state left by a build killed at %s does not load (%s): no report (hung=%v)", point, mode, hung)
+			r.oracle("C03 the state left by %s does not load (%s): no report (hung=%v)", what, mode, hung)
 		} else if rep.LoadErr != "" {
-			r.oracle("C03 the state left by a build killed at %s does not load (%s): %s", point, mode, rep.LoadErr)
+			r.oracle("C03 the state left by %s does not load (%s): %s", what, mode, rep.LoadErr)
 		}
 	}
 }
